@@ -25,6 +25,7 @@ HARNESSES = [
     dict(name=H + "kc16::c16_write_dr", file="kani/h_c16.rs", ids=r"^C16/write_dr/", fn="Bus::write (DR arm), Bus::on_write_dr", props=["C16", "C15"]),
     dict(name=H + "kc16::c16_write_ddr", file="kani/h_c16.rs", ids=r"^C16/write_ddr/", fn="Bus::write (DDR arm), Bus::on_write_ddr", props=["C16", "C15"]),
     dict(name=H + "kc16::c16_external_input", file="kani/h_c16.rs", ids=r"^C16/external_input/", fn="Bus::write_port", props=["C16", "C15"]),
+    dict(name=T + "c17_call_charge_001_024_fast", file="kani/h_c17.rs", ids=r"^C17/(update_timer8_0|update_tcr/(divisor_decoded|enable_bits_decoded))", fn="Timer8_0::update_tcr, Timer8_0::update_timer8_0", props=["C17"]),
     dict(name=T + "c17_call_charge_001_063", file="kani/h_c17.rs", ids=r"^C17/(update_timer8_0|update_tcr/(divisor_decoded|enable_bits_decoded))", fn="Timer8_0::update_tcr, Timer8_0::update_timer8_0", props=["C17", "C15"]),
     dict(name=T + "c17_call_charge_064_127", file="kani/h_c17.rs", ids=r"^C17/(update_timer8_0|update_tcr/(divisor_decoded|enable_bits_decoded))", fn="Timer8_0::update_tcr, Timer8_0::update_timer8_0", props=["C17", "C15"]),
     dict(name=T + "c17_call_charge_128_191", file="kani/h_c17.rs", ids=r"^C17/(update_timer8_0|update_tcr/(divisor_decoded|enable_bits_decoded))", fn="Timer8_0::update_tcr, Timer8_0::update_timer8_0", props=["C17", "C15"]),
@@ -40,6 +41,7 @@ HARNESSES = [
     dict(name=H + "kc07::c07_mov_b_rejects_movfpe_movtpe", file="kani/h_c07.rs", ids=r"^C07/mov_b/", fn="Cpu::mov_b, mov_b_abs_16_or_24", props=["C07", "C15"]),
     dict(name=H + "kc07::c07_stc_w_disp24_rejects_ldc", file="kani/h_c07.rs", ids=r"^C07/stc_w_disp24/", fn="Cpu::stc_w_disp24", props=["C07", "C15"]),
     dict(name=H + "kc15::c15_fetch_any_pc", file="kani/h_c15.rs", ids=r"^C15/fetch/", fn="Cpu::fetch", props=["C15"]),
+    dict(name=T + "c15_timer_any_tcr_write", file="kani/h_c17.rs", ids=r"^C15/timer/", fn="Timer8_0::update_tcr (any byte), Timer8_0::update_timer8_0", props=["C15"]),
     dict(name=H + "kc19::c19_cost_formula", file="kani/h_c19.rs", ids=r"^C19/calc_state_with_addr/", fn="Cpu::calc_state_with_addr, Cpu::get_wait_state, Bus::get_area_index, Bus::check_dram_area, Bus::read", props=["C19", "C15"]),
     dict(name=H + "kc19::c19_calc_state", file="kani/h_c19.rs", ids=r"^C19/calc_state/", fn="Cpu::calc_state", props=["C19", "C15"]),
     dict(name=H + "kc19::c19_wait_and_area", file="kani/h_c19.rs", ids=r"^C19/(get_wait_state|get_area_index|check_dram_area)/", fn="Cpu::get_wait_state, Bus::get_area_index, Bus::check_dram_area", props=["C19", "C15"]),
@@ -206,6 +208,11 @@ def run_verus_unit(rep, prop, unit, fn_names):
     rep.vacuity.append({"verus_unit": unit, "canary_ensures_false_fails": ok, "functions_verified": res.get("verified", 0)})
     if not ok:
         rep.inconclusive.append("vacuity guard: canary `ensures false` of verus unit %s did not fail" % unit)
+    if rep.tier == "thorough":
+        names, bad = verus_run.falsify_each(unit)
+        rep.vacuity.append({"verus_unit": unit, "falsified_one_at_a_time": names, "still_verified_with_ensures_false": bad})
+        if bad:
+            rep.inconclusive.append("vacuity guard: %s of unit %s still verify with `ensures false` (unsatisfiable precondition?)" % (bad, unit))
     for t in VERUS_TRUSTED.get(unit, []) + ["Verus 0.2026.09.13 / Z3 (bundled); rustc 1.98.1"]:
         if t not in rep.trusted:
             rep.trusted.append(t)
